@@ -563,10 +563,59 @@ def rule_count_extent(prog, fixture=False):
     return r
 
 
+# ---------------------------------------------------------------- R-C03-6
+def rule_listo_applies_to_every_line(prog, fixture=False):
+    r = RuleResult("R-C03-6", "in decode_line the LISTO option bits are consulted independently of the line's number: "
+                   "no read of `listo` is control-dependent on a condition over the line number, so the layout "
+                   "options apply alike to numbered lines and to lines whose number is 0 (omitted)",
+                   floor=0 if fixture else 3)
+    for fn in prog.fn("decode_line", required=not fixture):
+        lp = [p_ for p_ in fn.params if p_.get("n") == "listo"]
+        if not lp:
+            r.undecided.append("decode_line has no parameter named listo")
+            continue
+        # what derives from the line number: the two byte parameters and locals computed from them
+        num = {p_["d"] for p_ in fn.params if p_.get("n") in ("line_hi", "line_lo", "hi", "lo")}
+        changed = True
+        while changed:
+            changed = False
+            for v in fn.walk():
+                if v.get("k") == "VarDecl" and v.get("c") and v["d"] not in num and flow.decl_ids(v["c"][0]) & num:
+                    num.add(v["d"])
+                    changed = True
+        k = 0
+        for u in fn.walk():
+            if u.get("k") != "DeclRefExpr" or u.get("d") != lp[0]["d"]:
+                continue
+            k += 1
+            bad = None
+            child = u
+            for a in fn.ancestors(u):
+                kk = a.get("k")
+                cond = None
+                if kk == "IfStmt":
+                    c = a["c"][a["parts"]["cond"]]
+                    if not any(x is u for x in walk(c)):
+                        cond = c
+                elif kk == "ConditionalOperator" and not any(x is u for x in walk(a["c"][0])):
+                    cond = a["c"][0]
+                elif kk == "BinaryOperator" and a.get("op") in ("&&", "||") and any(x is child for x in walk(a["c"][1])):
+                    cond = a["c"][0]
+                if cond is not None and flow.decl_ids(cond) & num:
+                    bad = cond
+                child = a
+            r.add("%s::%s::listo-use#%d" % (fn.relfile(), fn.qn, k), fn.loc(u), bad is None,
+                  "independent of the line number" if bad is None else
+                  "this LISTO test is only made when `%s`: the option is applied to some lines and not to others "
+                  "(e.g. no separating space after the number field of an unnumbered line)" % show(bad))
+    return r
+
+
 def run(ctx):
     prog = ctx.prog("basic", "N")
     root = ctx.root or facts.REPO
-    return [rule_line_number(prog, root), rule_input_independence(prog), rule_indentation(prog), rule_count_extent(prog)]
+    return [rule_line_number(prog, root), rule_input_independence(prog), rule_indentation(prog), rule_count_extent(prog),
+            rule_listo_applies_to_every_line(prog)]
 
 
 def _fx_line(prog, fixture=True):
